@@ -518,6 +518,9 @@ class Command:
                 )
                 if condition:
                     self.curarg = curarg
+                if "tag" not in curarg["type"]:
+                    # optional positional arguments are ordered too
+                    self.nextargpos = pos + 1
                 if add:
                     self.arguments[curarg["name"]] = avalue
                 break
